@@ -1,7 +1,8 @@
 open Model
 open Util
+open Json
 
-let out_bytes (o : n list outcome) : string =
+let out_bytes (o : n list outcome) : Stdlib.String.t =
   match o with
   | Ok l -> "ok " ^ hex_of_bytes l
   | Err -> "err"
@@ -9,7 +10,7 @@ let out_bytes (o : n list outcome) : string =
 
 let profile_ref = ref Debug
 
-let dispatch (t : string array) : string =
+let dispatch (t : Stdlib.String.t array) : Stdlib.String.t =
   match t.(0) with
   | "profile" ->
       profile_ref := (if t.(1) = "release" then Release else Debug);
@@ -21,6 +22,38 @@ let dispatch (t : string array) : string =
       match av1_validated_trimmed_data (bytes_of_hex t.(1)) with
       | Ok d -> out_bytes (convert_av1_rpu_payload_to_regular !profile_ref d)
       | Err -> "err"
+      | Panic s -> "panic " ^ string_of_n s)
+  | "parse" | "parseclass" -> (
+      let d = bytes_of_hex t.(2) in
+      let r = match t.(1) with
+        | "rpu" -> parse_rpu !profile_ref src_sw d
+        | "nal" -> parse_unspec62_nalu !profile_ref src_sw d
+        | "av1" -> parse_av1 !profile_ref src_sw d
+        | _ -> failwith "bad kind" in
+      match r with
+      | Ok x -> if t.(0) = "parse" then "ok " ^ json_rpu x else "ok"
+      | Err -> "err"
+      | Panic s -> "panic " ^ string_of_n s)
+  | "rt" -> (
+      let d = bytes_of_hex t.(3) in
+      let r = match t.(1) with
+        | "rpu" -> parse_rpu !profile_ref src_sw d
+        | "nal" -> parse_unspec62_nalu !profile_ref src_sw d
+        | "av1" -> parse_av1 !profile_ref src_sw d
+        | _ -> failwith "bad kind" in
+      match r with
+      | Ok x -> (
+          let w = match t.(2) with
+            | "rpu" -> write_rpu !profile_ref src_sw x
+            | "nal" -> write_hevc_unspec62_nalu !profile_ref src_sw x
+            | "av1" -> write_av1_payload !profile_ref src_sw x
+            | "av1c" -> write_av1_complete !profile_ref src_sw x
+            | _ -> failwith "bad kind" in
+          match w with
+          | Ok l -> "ok " ^ hex_of_bytes l
+          | Err -> "err write"
+          | Panic s -> "panic " ^ string_of_n s)
+      | Err -> "err parse"
       | Panic s -> "panic " ^ string_of_n s)
   | _ -> failwith ("unknown op " ^ t.(0))
 
